@@ -206,7 +206,7 @@ Qed.
 
 Lemma fa_init_link fuel ffuel r r' res : fa_init fuel ffuel r = (r', res) -> GrowLink (log r) (log r') [].
 Proof.
-  unfold fa_init. intros H. destruct (fa_first_byte fuel ffuel r 0) as [r1 fb] eqn:E1.
+  unfold fa_init. intros H. destruct (fa_first_byte fuel ffuel r (pline r)) as [r1 fb] eqn:E1.
   pose proof (fa_first_byte_link _ _ _ _ _ _ E1) as L1.
   destruct fb as [ln pos b| |k|]; try (inversion H; subst; exact L1).
   destruct (b =? GT); inversion H; subst; exact L1.
@@ -417,7 +417,7 @@ Qed.
 
 Lemma fa_init_fits fuel ffuel r r' res : fa_init fuel ffuel r = (r', res) -> BufFits r -> BufFits r'.
 Proof.
-  unfold fa_init. intros H Hf. destruct (fa_first_byte fuel ffuel r 0) as [r1 fb] eqn:E1.
+  unfold fa_init. intros H Hf. destruct (fa_first_byte fuel ffuel r (pline r)) as [r1 fb] eqn:E1.
   pose proof (fa_first_byte_fits _ _ _ _ _ _ E1 Hf) as Hf1.
   destruct fb as [ln pos b| |k|]; try (inversion H; subst; exact Hf1).
   destruct (b =? GT); inversion H; subst; exact Hf1.
@@ -583,7 +583,7 @@ Lemma fa_seek_post ffuel r line byte_ r' o : fa_seek ffuel r line byte_ = (r', o
 Proof.
   unfold fa_seek. intros H Hf Hfull.
   destruct ((0 <=? Z.of_nat (start r) + (Z.of_nat byte_ - Z.of_nat (pbyte r)))%Z &&
-            (Z.of_nat (start r) + (Z.of_nat byte_ - Z.of_nat (pbyte r)) <? Z.of_nat (length (buf r)))%Z).
+            (Z.of_nat (start r) + (Z.of_nat byte_ - Z.of_nat (pbyte r)) <? Z.of_nat (length (buf r)))%Z && negb (fa_state_eqb (st r) FNew)).
   { inversion H; subst. split; [exact Hf|]. apply FullInc_not_incomplete. discriminate. }
   destruct (src_seek (src r) byte_) as [s' res] eqn:Es.
   destruct res as [k|]; [inversion H; subst; split; [exact Hf|exact Hfull]|].
